@@ -679,6 +679,7 @@ pub fn churn(args: &[String], out: &mut Sink) {
         let ncycles = prog.lines().filter(|l| l.ends_with("close")).count();
         out.mark_case(format!("churn case {case} buckets={buckets}"));
         out.add("churn_cycles_completed", ncycles as u64);
+        out.add("evaluations", 3 * ncycles as u64);
         out.count("churn_runs");
         out.nontrivial(&format!("churn {seed} {case}"));
         out.nontrivial(&format!("churn-b {seed} {case} {ncycles}"));
